@@ -164,3 +164,10 @@ Proof.
     apply andb_true_iff in Hs as [Hs _]. unfold is_sign_metadata in Hs. rewrite H in Hs. discriminate.
   - rewrite Hext in H. destruct H.
 Qed.
+
+(** * Fourth round: nesting of any depth *)
+Lemma table_ante_nested_sound : forall g tx,
+  ante_nested Gen.C03.ante_lookup_carried Gen.C03.max_nested_depth g tx = true ->
+  forall top spec m, In top tx -> occurs (spec, m) top -> ms_has_meta spec = true ->
+  exists sg, In sg (m_meta_signers m) /\ (sg = m_creator m \/ granted g (m_creator m) sg = true).
+Proof. rewrite decorator_loop_stateless_lemma. apply ante_nested_sound_lemma. Qed.
